@@ -514,7 +514,8 @@ class Interp:
             raise OutOfSubset(f'{self.source_name}:{s.lineno}: loop header changed; loop contract {key} '
                               f'was written for `{spec.header}`')
         spec.establish(self, env, it)
-        which = self.ctx.choose(2, f'loop{key}')
+        mode = getattr(spec, 'mode', None)
+        which = {'step': 0, 'exit': 1}[mode] if mode else self.ctx.choose(2, f'loop{key}')
         if which == 0:
             n = SInt(z3.Int(self.ctx.fresh('n')))
             ln = seq_len(it)
@@ -951,6 +952,9 @@ class Interp:
                 return r
         if hasattr(f, 'kvc_call'):
             return f.kvc_call(self, *args, **kwargs)
+        if isinstance(getattr(f, '__self__', None), str) and getattr(f, '__name__', '') == 'join':
+            from .models import model_join
+            return model_join(self, f.__self__, *args)
         mdl = NATIVE_MODELS.get(f) if _hashable(f) else None
         if mdl is not None:
             return mdl(self, *args, **kwargs)
